@@ -160,6 +160,18 @@ CHECKS = {
         "samplebuilder/pion defects keyed by history shape (cannot be repaired here: the dependency cannot be re-fetched).",
    technique="Lean 4 proofs (gap/fetch/timestamp glue) + model/implementation differential check + file read-back oracle",
    ref="DESIGN.md section 5 C20"),
+ "C07": dict(engine="streams+down",
+   text="Lean 4 theorems about an executable model of the stream fan-out state machine (pushConn timers, action queues, pushDownConn/requestedTracks/replaceTracks/"
+        "negotiate, delUpConn/leaveGroup), parametrised by the repairs f1/f3 (Fixes, currentFixes), for every state and every interleaving of client messages, OnTrack "
+        "callbacks, timer expiries and single queued actions: selection rule, offer iff member-and-selected with exactly the selected tracks, isolation between groups "
+        "(inductive invariant over all histories), every close has a permitted cause, publisher-side teardown reaches every member, and — unconditionally for the "
+        "repaired code, replace and renegotiations included — teardown at quiescence (C07_teardown_quiescent); the model is tied to the code by end-to-end scenario runs "
+        "against the real websocket handler with real pion publishers and subscribers on every check (message-level comparison per op between quiescent points)",
+   note=TB + "Weaker tie than the core engines: scripted end-to-end scenarios (≈1.2 s each; 16 quick, hundreds thorough). One partial result with a proved counterexample "
+        "(collision_mislabels) reproduced on the real server: C07_label_true_partial (true label only if stream ids do not collide between publishers) = known finding "
+        "stream-id-collision-across-publishers. Abstracted: SDP/ICE/DTLS (negotiation never fails), admission, ICE restarts; the 200 ms push delay is a timer step.",
+   technique="Lean 4 proofs on a hand-written model + end-to-end differential check + model-independent trace oracle",
+   ref="DESIGN.md section 5 C07"),
  "C05": dict(engine="cache",
    text="Lean 4 refinement proof (ring buffer with three-way resize refines a bounded FIFO; Get/GetAt soundness; newest-window retrievability) for "
         "every capacity ≥ 1 and every op sequence, tied to packetcache.Cache by a differential run of the model against the real API on every check, "
